@@ -600,6 +600,8 @@ IMPL_SUBSET = ('check ',)
 def main():
     ctx = vlib.Ctx('C12')
     vlib.proof_phase(ctx, extra_targets=['Extract/ExtractCodec.vo'])
+    # the walk with static offsets, over the functions translated from core.hpp on this run (Gen/GenWalk.v)
+    vlib.proof_phase_extra(ctx, 'Properties_walk_source')
     mdl, drv = build_binaries(ctx)
     if ctx.replay:
         replay(ctx, mdl, drv, oracle_c12, PREFIXES, IMPL_SUBSET)
